@@ -289,7 +289,7 @@ extern int mpt_text_get(const MPT_STRUCT(text) *tx, MPT_STRUCT(property) *pr)
 		}
 		else if (pr->name[0] == 'y') {
 			from = &elem_xy[1];
-			pos = (tx && tx->pos.x == def_text.pos.x) ? 'd' : 0;
+			pos = (tx && tx->pos.y == def_text.pos.y) ? 'd' : 0;
 		}
 		else {
 			return MPT_ERROR(BadArgument);
